@@ -24,9 +24,14 @@ type c12NS struct {
 	physPfx  string // physical prefix of everything in the namespace ("" for root)
 	token    string // token with path "*" policy in this namespace
 	child    string // child of token
+	nsRoot   string // the namespace's own root token (policy "root" issued in this namespace)
 }
 
 type c12Mount struct {
+	// emptySeg: a key with an empty path segment ("a//b", "/abs", "") was written through this mount; Core.moveStorage
+	// walks such a tree forever (path.Join drops the empty segment and the same directory is listed again and again),
+	// so these mounts are not remounted. Observation outside this property (a hang, not a confinement breach).
+	emptySeg bool
 	ns      *c12NS
 	path    string // "m1/"
 	physPfx string
@@ -141,6 +146,11 @@ func newC12World(t *testing.T, rt *rapid.T) *c12World {
 			}
 			n.token = tok
 		}
+		if n.path != "" {
+			if te, err := tc.c.tokenStore.rootToken(w.ctx(n)); err == nil && te != nil {
+				n.nsRoot = te.ID
+			}
+		}
 		cr := tc.doCtx(w.ctx(n), &logical.Request{Operation: logical.UpdateOperation, Path: "auth/token/create", ClientToken: n.token, Data: map[string]any{"policies": []string{"all", "default"}, "ttl": "30m"}})
 		if cr.ok() && cr.resp != nil && cr.resp.Auth != nil {
 			n.child = cr.resp.Auth.ClientToken
@@ -207,8 +217,18 @@ func TestVerif_C12_Confinement(t *testing.T) {
 					data["v"] = marker
 				}
 				tok := user.token
-				if fairIndex(rt, "childToken", 4) == 0 && user.child != "" {
-					tok = user.child
+				switch fairIndex(rt, "whichToken", 5) {
+				case 0:
+					if user.child != "" {
+						tok = user.child
+					}
+				case 1:
+					if user.nsRoot != "" {
+						tok = user.nsRoot
+					}
+				}
+				if op == logical.UpdateOperation && (key == "" || strings.Contains(key, "//") || strings.HasPrefix(key, "/") || strings.HasSuffix(key, "/")) {
+					m.emptySeg = true
 				}
 				authorised := isDescendantOrSelf(m.ns.path, user.path) && !m.ns.sealed && !user.sealed
 				callsBefore := len(w.hub.handlerCalls())
@@ -345,6 +365,68 @@ func TestVerif_C12_Confinement(t *testing.T) {
 				if served {
 					fail("foreign-policy-name-grants-other-namespace", fmt.Sprintf("a token created in namespace %q with the policy name %q was served in namespace %q (outside its own namespace and descendants)", home.path, name, victim.path))
 				}
+			},
+			// move a mount to another path, possibly in another namespace: afterwards it must serve (only) its own data from
+			// a storage prefix inside the destination namespace
+			"remount": func(rt *rapid.T) {
+				var cands []*c12Mount
+				for _, m := range w.mounts {
+					if !m.ns.sealed && m.path != "deep/x/" && !m.emptySeg {
+						cands = append(cands, m)
+					}
+				}
+				if len(cands) == 0 {
+					rt.Skip("nothing to move")
+				}
+				m := cands[fairIndex(rt, "mount", len(cands))]
+				var dsts []*c12NS
+				for _, n := range w.nss {
+					if !n.sealed && !n.sealable && !m.ns.sealable {
+						dsts = append(dsts, n)
+					}
+				}
+				if len(dsts) == 0 {
+					rt.Skip("no destination")
+				}
+				dst := dsts[fairIndex(rt, "dst", len(dsts))]
+				w.nwrite++
+				newPath := fmt.Sprintf("mv%d/", w.nwrite)
+				// a marker written before the move
+				marker := fmt.Sprintf("MARK-m%d-%d", m.id, w.nwrite)
+				pre := tc.doCtx(w.ctx(m.ns), &logical.Request{Operation: logical.UpdateOperation, Path: m.path + "kv/moved", ClientToken: tc.root, Data: map[string]any{"v": marker}})
+				if !pre.ok() {
+					t.Fatalf("harness: write before remount: %v", pre)
+				}
+				err := tc.c.remountSecretsEngine(tc.ctx, namespace.MountPathDetails{Namespace: m.ns.ns, MountPath: m.path}, namespace.MountPathDetails{Namespace: dst.ns, MountPath: newPath}, true)
+				if err != nil {
+					w.logf("remount %s%s -> %s%s refused: %v", m.ns.path, m.path, dst.path, newPath, err)
+					return
+				}
+				w.logf("remount %s%s -> %s%s", m.ns.path, m.path, dst.path, newPath)
+				oldNS := m.ns
+				m.ns, m.path = dst, newPath
+				// the data written before the move must be served at the new place
+				rd := tc.doCtx(w.ctx(dst), &logical.Request{Operation: logical.ReadOperation, Path: newPath + "kv/moved", ClientToken: tc.root})
+				if !rd.ok() || rd.resp == nil || rd.resp.Data["v"] != marker {
+					fail("data-lost-by-remount", fmt.Sprintf("the value written through %s before the remount is not served at %s%s: %v", oldNS.path, dst.path, newPath, rd))
+				}
+				// learn the new storage prefix from a probe write and require it to lie inside the destination namespace
+				seq := tc.rec.Seq()
+				pr := tc.doCtx(w.ctx(dst), &logical.Request{Operation: logical.UpdateOperation, Path: newPath + "kv/__probe", ClientToken: tc.root, Data: map[string]any{"v": "probe"}})
+				if !pr.ok() {
+					fail("moved-mount-unusable", fmt.Sprintf("write through the moved mount failed: %v", pr))
+				}
+				newPfx := ""
+				for _, o := range tc.rec.OpsSince(seq) {
+					if o.Kind == "put" && strings.HasSuffix(o.Key, "/__probe") {
+						newPfx = strings.TrimSuffix(o.Key, "__probe")
+					}
+				}
+				if newPfx == "" || !strings.HasPrefix(newPfx, dst.physPfx) || (dst.path == "" && strings.HasPrefix(newPfx, "namespaces/")) {
+					fail("moved-mount-writes-outside-its-namespace", fmt.Sprintf("after the remount to %s%s the mount writes to physical prefix %q, outside the destination namespace's storage %q", dst.path, newPath, newPfx, dst.physPfx))
+				}
+				m.physPfx = newPfx
+				nontrivial = true
 			},
 			"seal-toggle": func(rt *rapid.T) {
 				var s *c12NS
